@@ -1,7 +1,10 @@
 import Dasp.Driver.Loop
+import Dasp.Driver.Envelope
 open Dasp.Driver
 
--- stub: replaced when property C19 is wired in
 def main : IO Unit := runDriver fun
+  | "rect" :: rest => rectLine rest
+  | "env" :: rest => envLine false rest
+  | "envsig" :: rest => envLine true rest
   | [] => ""
   | _ => "bad-op"
